@@ -23,6 +23,9 @@ from .srcmodel import FunctionInfo
 from .srcmodel import Module
 from .srcmodel import Program
 from .srcmodel import dotted
+from .types import TypeApprox
+from .types import may_be_big_int
+from .types import may_be_unhashable
 
 STD = {
     "decimal.InvalidOperation": decimal.InvalidOperation,
@@ -95,6 +98,11 @@ class Escapes:
         self.exempted: list[tuple[str, str, str]] = []
         self.filter_fns = [f for fs in prog.filter_callables().values() for f in fs]
         self._cfgs: dict = {}
+        self.types = TypeApprox(prog)
+        self.undeclared: list[str] = []  # stringified / hashed operands whose type the code does not declare
+        self._minlen: dict = {}
+        self.islice_checked: list[tuple[str, str, bool]] = []
+        self.filter_fids = {f.fid for f in self.filter_fns}
         self.n_sites = 0
         self.n_calls = 0
         self.n_resolved = 0
@@ -235,6 +243,8 @@ class Escapes:
                         continue
                     if q in ("int", "float", "round") and n.args and isinstance(n.args[0], ast.Constant):
                         continue
+                    if q == "itertools.islice" and self._islice_bounded(fi, n):
+                        continue
                     for t in CALL_CATALOGUE[q]:
                         out.append((n, t, f"{q.split('.')[-1]}({ast.unparse(n.args[0])[:40] if n.args else ''})"))
                 elif isinstance(n.func, ast.Attribute) and n.func.attr in METHOD_CATALOGUE and not isinstance(n.func.value, ast.Constant):
@@ -266,6 +276,121 @@ class Escapes:
                 val = idx.value if isinstance(idx, ast.Constant) else (-(idx.operand.value) if isinstance(idx, ast.UnaryOp) and isinstance(idx.op, ast.USub) and isinstance(idx.operand, ast.Constant) and isinstance(idx.operand.value, int) else None)
                 if isinstance(val, int) and not isinstance(val, bool) and not self._index_safe(fi, n, val):
                     out.append((n, IndexError, f"{ast.unparse(n)[:40]}"))
+        out.extend(self._typed_sites(fi))
+        return out
+
+    # ---------------------------------------------------------------- sites that depend on declared types
+    STRINGIFIERS = {"str", "repr", "format", "ascii", "markupsafe.escape", "markupsafe.Markup", "markupsafe.soft_str"}
+
+    def _cfg(self, fi: FunctionInfo):  # noqa: ANN202
+        from .cfg import CFG
+
+        if fi.fid not in self._cfgs:
+            self._cfgs[fi.fid] = CFG(fi.node, noreturn=lambda c, fi=fi: self._noreturn(fi, c))
+        return self._cfgs[fi.fid]
+
+    def _noreturn(self, fi: FunctionInfo, c: ast.Call) -> bool:
+        cs = self.resolve_call(fi, c)
+        return bool(cs) and all(g.node.returns is not None and ast.unparse(g.node.returns) in ("Never", "NoReturn", "typing.NoReturn", "typing.Never") for g in cs)
+
+    def _islice_bounded(self, fi: FunctionInfo, c: ast.Call) -> bool:
+        """Every start/stop/step argument is None or an int proven to lie in [0, k*len] (sa.bounds)."""
+        from .bounds import BoundFlow
+        from .util import cfg_node_of
+
+        if c.keywords or len(c.args) < 2:
+            return False
+        key = ("bounds", fi.fid)
+        if key not in self._minlen:
+            self._minlen[key] = BoundFlow(self.prog, fi, self._cfg(fi))
+        bf = self._minlen[key]
+        ok = all(bf.kinds_at(c, a, cfg_node_of) <= {"none", "len"} for a in c.args[1:])
+        self.islice_checked.append((fi.fid, ast.unparse(c)[:60], ok))
+        return ok
+
+    def _in_filter(self, fi: FunctionInfo) -> bool:
+        f: FunctionInfo | None = fi
+        while f is not None:
+            if f.fid in self.filter_fids:
+                return True
+            f = f.parent_fn
+        return False
+
+    def _typed_sites(self, fi: FunctionInfo) -> list[tuple[ast.AST, type, str]]:  # noqa: PLR0912, PLR0915
+        out: list[tuple[ast.AST, type, str]] = []
+        T = self.types
+        mod = fi.module
+        in_filter = self._in_filter(fi)
+
+        def big(e: ast.AST, kind: str, at: ast.AST) -> None:
+            # the message of an `assert` is evaluated only when the assertion fails (its own catalogue entry)
+            child: ast.AST = at
+            for a in mod.ancestors(at):
+                if isinstance(a, ast.Assert) and a.msg is not None and any(child is x for x in ast.walk(a.msg)):
+                    return
+                if a is fi.node:
+                    break
+            t = T.of(fi, e)
+            v = may_be_big_int(t)
+            if v and t is not None and not in_filter and "object" not in t and "Any" not in t:
+                v = False  # engine integers (positions, counters, lengths) outside the filter functions
+            txt = ast.unparse(e)[:40]
+            if v:
+                out.append((at, ValueError, f"{kind} of {txt}"))
+            elif v is None:
+                self.undeclared.append(f"{fi.file} {fi.qualname}: {kind} of {txt}")
+
+        for n in self._own(fi.node):
+            if isinstance(n, ast.Call):
+                q = self.qual_of(fi, n.func)
+                if q in self.STRINGIFIERS and n.args and not n.keywords and len(n.args) == 1:
+                    big(n.args[0], f"{q.split('.')[-1]}()", n)
+                elif q == "format" and n.args:
+                    big(n.args[0], "format()", n)
+                elif isinstance(n.func, ast.Attribute) and n.func.attr == "format" and T.of(fi, n.func.value) == "str":
+                    for a in list(n.args) + [k.value for k in n.keywords]:
+                        big(a, ".format()", n)
+                # list.pop() / deque.popleft() on a possibly empty sequence
+                if isinstance(n.func, ast.Attribute) and ((n.func.attr == "pop" and len(n.args) <= 1 and not n.keywords and all(isinstance(a, (ast.Constant, ast.UnaryOp)) for a in n.args)) or (n.func.attr == "popleft" and not n.args)):
+                    rt = T.of(fi, n.func.value)
+                    ci = T.class_of(fi, rt)
+                    if ci is not None and self.prog.find_method(ci, n.func.attr) is not None:
+                        continue  # a liquid2 method of that name: followed as a call
+                    if rt is not None and rt.split("[")[0] in ("dict", "Dict", "set", "defaultdict", "DefaultDict", "Mapping", "MutableMapping"):
+                        continue  # dict.pop(key) needs an argument and is a different operation; set.pop is not used on data
+                    from .lenflow import LenFlow, _text
+                    from .util import cfg_node_of
+
+                    recv = _text(n.func.value)
+                    ok = False
+                    if recv is not None:
+                        key = fi.fid
+                        if key not in self._minlen:
+                            self._minlen[key] = LenFlow(self.prog, fi, self._cfg(fi))
+                        ok = self._minlen[key].bound_before(n, recv, cfg_node_of) >= 1
+                    if not ok:
+                        out.append((n, IndexError, f"{ast.unparse(n)[:40]}"))
+            elif isinstance(n, ast.JoinedStr):
+                for v in n.values:
+                    if isinstance(v, ast.FormattedValue):
+                        big(v.value, "f-string", n)
+            elif isinstance(n, ast.BinOp) and isinstance(n.op, ast.Mod) and T.of(fi, n.left) == "str":
+                for x in n.right.elts if isinstance(n.right, ast.Tuple) else [n.right]:
+                    big(x, "%-format", n)
+            elif isinstance(n, ast.Compare) and len(n.ops) == 1 and isinstance(n.ops[0], (ast.In, ast.NotIn)):
+                needle, hay = n.left, n.comparators[0]
+                ht = T.of(fi, hay)
+                if isinstance(hay, (ast.Tuple, ast.List, ast.Constant, ast.JoinedStr)):
+                    continue
+                seq_like = ht is not None and ht.split("[")[0].split(" |")[0] in ("str", "list", "tuple", "List", "Tuple", "Sequence", "Markup", "list[str]", "deque", "range")
+                if seq_like:
+                    continue  # membership in str/list/tuple compares with ==, never hashes
+                nt = T.of(fi, needle)
+                u = may_be_unhashable(nt)
+                if u:
+                    out.append((n, TypeError, f"hash of {ast.unparse(needle)[:30]} in `{ast.unparse(n)[:40]}`"))
+                elif u is None:
+                    self.undeclared.append(f"{fi.file} {fi.qualname}: hash of {ast.unparse(needle)[:30]} in `{ast.unparse(n)[:40]}`")
         return out
 
     def _index_safe(self, fi: FunctionInfo, n: ast.Subscript, idx: int) -> bool:
@@ -286,7 +411,7 @@ class Escapes:
         from .util import cfg_node_of
         from .util import guarded_by_test
 
-        cfg = self._cfgs.setdefault(fi.fid, CFG(fi.node))
+        cfg = self._cfg(fi)
         tn = cfg_node_of(cfg, n)
 
         def nonempty(e: ast.AST) -> bool | None:
